@@ -159,6 +159,12 @@ func adversarial() []advCase {
 			add("cff.Read", "predefined-charset-"+itoa(cs)+"-glyphs-"+itoa(n), cffPredefinedCharset(cs, n))
 		}
 	}
+	// Type 2 operators met "cold": every one-byte operator and every escaped
+	// (12 x) operator with 0..4 small operands in front, as the whole program of
+	// a glyph (no stems declared, nothing stored, no subroutines, no move yet)
+	for _, b := range t2ColdPrograms() {
+		add("cff.Read", "t2-cold-ops", cffWithGlyph(b))
+	}
 	add("gtab.Read/GSUB", "gsub2_1-aliased-sequences-2000", gsub2Aliased(2000))
 	add("gtab.Read/GSUB", "gsub2_1-aliased-sequences-16000", gsub2Aliased(16000))
 	return out
@@ -280,5 +286,65 @@ func cffPredefinedCharset(cs, nGlyphs int) []byte {
 		b = append(b, 14) // endchar
 	}
 	b = append(b, 0x8b, 20) // Private DICT: defaultWidthX 0
+	return b
+}
+
+
+// t2ColdPrograms: operand lists of length 0..4 over a few small values, each
+// followed by one operator byte (or 12 + byte) and endchar.
+func t2ColdPrograms() [][]byte {
+	num := func(v int) []byte {
+		if v >= -107 && v <= 107 {
+			return []byte{byte(v + 139)}
+		}
+		return []byte{28, byte(v >> 8), byte(v)}
+	}
+	var ops [][]byte
+	for b := 0; b < 32; b++ {
+		if b == 12 || b == 28 {
+			continue
+		}
+		ops = append(ops, []byte{byte(b)})
+	}
+	for b := 0; b < 40; b++ {
+		ops = append(ops, []byte{12, byte(b)})
+	}
+	operandSets := [][]int{{}, {0}, {31}, {32}, {-1}, {0, 0}, {1, 0}, {5, 31}, {5, 32}, {1, 2, 3}, {3, 2, 1, 0}, {1, 2, 1, 3}, {7, 7, 2, -1}}
+	var out [][]byte
+	for _, op := range ops {
+		for _, os := range operandSets {
+			var p []byte
+			for _, v := range os {
+				p = append(p, num(v)...)
+			}
+			p = append(p, op...)
+			if op[0] == 19 || op[0] == 20 {
+				p = append(p, 0x80) // a mask byte for hintmask / cntrmask
+			}
+			p = append(p, 14)
+			out = append(out, p)
+		}
+	}
+	return out
+}
+
+// cffWithGlyph: minimal simple CFF font (see cffPredefinedCharset) with the
+// glyphs .notdef = endchar and glyph 1 = prog, ISOAdobe charset.
+func cffWithGlyph(prog []byte) []byte {
+	int5 := func(v int) []byte { return []byte{29, byte(v >> 24), byte(v >> 16), byte(v >> 8), byte(v)} }
+	b := []byte{1, 0, 4, 1}
+	b = append(b, 0, 1, 1, 1, 2, 'A')
+	const topLen = 6 + 11
+	charStringsAt := len(b) + (2 + 1 + 2 + topLen) + 2 + 2
+	csLen := 2 + 1 + 2*3 + 1 + len(prog)
+	top := append(int5(charStringsAt), 17)
+	top = append(append(append(top, int5(2)...), int5(charStringsAt+csLen)...), 18)
+	b = append(b, 0, 1, 1, 1, byte(1+len(top)))
+	b = append(b, top...)
+	b = append(b, 0, 0, 0, 0)
+	b = append(b, 0, 2, 2, 0, 1, 0, 2, byte((2+len(prog))>>8), byte(2+len(prog)))
+	b = append(b, 14)
+	b = append(b, prog...)
+	b = append(b, 0x8b, 20)
 	return b
 }
